@@ -46,10 +46,12 @@ def gen_body(rng, tier, scale):
 
 
 def gen(rng, tier="quick", prop="C16"):
-    cfg = {"faults": sorted(f for f in ("dup", "frames", "motion", "live-surface", "setpose", "setE", "nudge") if rng.chance(0.7)),
+    cfg = {"faults": sorted(f for f in ("dup", "frames", "motion", "live-surface", "setpose", "setE", "nudge", "express") if rng.chance(0.7)),
            "identity_rotations": rng.chance(0.15)}
     faults = set(cfg["faults"])
     scale = rng.choice([0.05, 0.15, 0.5, 1.0, 2.0])
+    mixed = rng.chance(0.2)  # bodies of very different size (each draws its own scale)
+    cfg["mixed_scales"] = mixed
     nb = rng.choice([2, 2, 3])
     ops = []
     ext = {}
@@ -64,11 +66,13 @@ def gen(rng, tier="quick", prop="C16"):
         else:
             u = np.array(rng.unit())
             f = rng.choice([0.2, 0.5, 0.7, 0.9, 1.0, 1.2])
+            if rng.chance(0.15):  # shallow contact
+                f = 1.0 - rng.logu(1e-6, 3e-2)
             T[:3, 3] = pos[anchor] + u * (ext[anchor] + e_new) * f
         return T
 
     for s in range(nb):
-        kind, p, e = gen_body(rng, tier, scale)
+        kind, p, e = gen_body(rng, tier, rng.choice([0.01, 0.03, 0.3, 3.0, 30.0, 50.0]) if mixed else scale)
         T = pose_near(None if s == 0 else rng.randrange(s), e)
         ext[s] = e
         pos[s] = T[:3, 3].copy()
@@ -112,6 +116,15 @@ def gen(rng, tier="quick", prop="C16"):
             s_ = rng.randrange(nb)
             d = (np.array(rng.unit()) * ext[s_] * rng.logu(1e-3, 0.3)).tolist()
             ops.append({"op": "nudge", "s": s_, "d": d})
+            continue
+        if r < 0.3 and "express" in faults:
+            # the public RigidBody.express_in called by the user: the body keeps its place in the world, only the
+            # frame it is stored in changes (sometimes twice in a row, sometimes to the world frame)
+            s_ = rng.randrange(nb)
+            for _ in range(rng.choice([1, 1, 2])):
+                ops.append({"op": "express", "s": s_, "frame": np.eye(4).tolist() if rng.chance(0.3)
+                            else rng.pose(rng.choice([0.0, 1.0, 10.0]))})
+            reexpressed.add(s_)
             continue
         if r < 0.15 and "setE" in faults:
             ops.append({"op": "setE", "s": a, "E": rng.logu(1e-2, 1e2)})
@@ -162,6 +175,13 @@ class Model:
             return True
         if k == "nudge":
             return op["s"] in self.s
+        if k == "express":
+            e = self.s.get(op["s"])
+            if e is None:
+                return False
+            e["reexpressed"] = True
+            e["calls"] += 1
+            return True
         if k in ("setpose", "setE"):
             e = self.s.get(op["s"])
             if e is None:
@@ -209,7 +229,7 @@ def judge(plan, jr, prop="C16"):
                                                                          o.get("msg"), o.get("where")))]
         if op["op"] == "forces":
             ea, eb = model.s[op["a"]], model.s[op["b"]]
-            L = max(_ext(ea), _ext(eb))
+            L = min(_ext(ea), _ext(eb))  # the contact patch cannot be larger than the smaller body
             floor = 1e-7 * max(ea["E"], eb["E"]) * L ** 3 + 0.02 * float(o.get("fabs", 0.0))
             lv, tw, sw = o["live"], o["twin"], o["swap"]
             for name, r in (("live", lv), ("twin", tw), ("swap", sw), ("dup", o.get("dup")), ("moved", o.get("moved"))):
@@ -325,6 +345,8 @@ def stats(plan, jr):
                 fault = True
         elif kind == "nudge":
             inc("fault.nudge_in_place")
+        elif kind == "express":
+            inc("fault.express_in_by_user")
         elif kind == "setpose":
             inc("fault.setpose")
         elif kind == "setE":
